@@ -6,12 +6,16 @@
 //! Two spaces: `built` (sources produced by the real `ArchiveBuilder`, V1..V4) and `foreign`
 //! (sources produced by the independent writer `refimpl::mpqref`, V1/V2, with features the
 //! builder cannot produce: a `(signature)` entry, single-unit large files, files that are in
-//! the archive but not in its listfile, user-data prefix).
+//! the archive but not in its listfile, user-data prefix).  A third space `damaged` holds sources of
+//! both writers in which exactly one listed file cannot be read (`damaged.rs`): there `Err` is the
+//! expected answer, and `Ok` is held against the undamaged ground truth.
+mod damaged;
 mod judge;
 mod opts;
 mod repro;
 mod truth;
 
+use damaged::*;
 use judge::*;
 use opts::*;
 use serde_json::{json, Value};
@@ -23,6 +27,7 @@ use vcore::*;
 enum Srcs {
     Built(Vec<BuiltSrc>),
     Foreign(Vec<ForeignSrc>),
+    Damaged(Vec<DamagedSrc>),
 }
 
 /// case index = group + n_groups * source  (options vary fastest, simplest source first)
@@ -36,13 +41,18 @@ struct Rebuilds {
 
 impl Rebuilds {
     fn new(name: &'static str, tier: Tier) -> Rebuilds {
-        let srcs = if name == "built" { Srcs::Built(built_sources(tier)) } else { Srcs::Foreign(foreign_sources(tier)) };
-        Rebuilds { name, tier, groups: option_groups(tier), srcs, scratch: Scratch::new(if name == "built" { "c07b" } else { "c07f" }) }
+        let (srcs, groups, tag) = match name {
+            "built" => (Srcs::Built(built_sources(tier)), option_groups(tier), "c07b"),
+            "foreign" => (Srcs::Foreign(foreign_sources(tier)), option_groups(tier), "c07f"),
+            _ => (Srcs::Damaged(damaged_sources(tier)), damaged_groups(tier), "c07d"),
+        };
+        Rebuilds { name, tier, groups, srcs, scratch: Scratch::new(tag) }
     }
     fn n_src(&self) -> usize {
         match &self.srcs {
             Srcs::Built(v) => v.len(),
             Srcs::Foreign(v) => v.len(),
+            Srcs::Damaged(v) => v.len(),
         }
     }
     fn split(&self, i: u64) -> (usize, &Group) {
@@ -60,8 +70,13 @@ impl Space for Rebuilds {
         let sj = match &self.srcs {
             Srcs::Built(v) => v[si].json(),
             Srcs::Foreign(v) => v[si].json(),
+            Srcs::Damaged(v) => v[si].json(),
         };
-        json!({"space": self.name, "source": sj, "options": g.json(self.tier)})
+        let mut oj = g.json(self.tier);
+        if self.name == "damaged" && self.tier == Tier::Quick {
+            oj["flags"] = json!("(skip_encrypted,skip_signatures,verify,list_only,preserve_order): default, each flag flipped alone, skip_encrypted+verify");
+        }
+        json!({"space": self.name, "source": sj, "options": oj})
     }
     fn case_timeout(&self) -> u64 {
         300
@@ -72,7 +87,28 @@ impl Space for Rebuilds {
         let src = self.scratch.path(&format!("s{i}.mpq"));
         let dst = self.scratch.path(&format!("d{i}.mpq"));
         let _ = std::fs::remove_file(&src);
+        let mut victim: Option<usize> = None;
         let truth = match &self.srcs {
+            Srcs::Damaged(v) => {
+                let s = &v[si];
+                r.key = format!("d/{}/{}", s.key(), g.key());
+                let t = s.truth();
+                // set-up: write, damage, and make sure that exactly the victim is unreadable; anything
+                // else is not a case of this space (counted, never judged)
+                let setup = match guarded(|| s.build(&t, &src)) {
+                    Ok(Ok(())) => probe(&t, s.victim, &src),
+                    Ok(Err(e)) => Err(format!("inapplicable: {e}")),
+                    Err((f, l, m)) => Err(format!("set-up panic at {f}:{l}: {}", panic_class("", &m))),
+                };
+                if let Err(why) = setup {
+                    let _ = std::fs::remove_file(&src);
+                    r.outcome = format!("setup:{why}");
+                    r.count("damaged_setup_not_a_case", 1);
+                    return r;
+                }
+                victim = Some(s.victim);
+                t
+            }
             Srcs::Built(v) => {
                 let s = &v[si];
                 r.key = format!("b/{}/{}", s.key(), g.key());
@@ -100,7 +136,7 @@ impl Space for Rebuilds {
         for o in &g.opts {
             let _ = std::fs::remove_file(&dst);
             let mut rr = CaseResult::new();
-            guard_case(&mut rr, "judge", |x| judge_rebuild(&truth, &src, &dst, o, x));
+            guard_case(&mut rr, "judge", |x| judge_rebuild(&truth, &src, &dst, o, victim, x));
             if rr.nontrivial {
                 oks += 1;
             }
@@ -128,7 +164,9 @@ impl Space for Rebuilds {
         }
         r.count("rebuild_calls", g.opts.len() as u64);
         r.count("refusals", refusals);
-        r.nontrivial = oks > 0;
+        // damaged space: the case is one as soon as the set-up was confirmed (exactly the victim unreadable);
+        // a refusal by every flag combination is the expected observation there
+        r.nontrivial = oks > 0 || victim.is_some();
         r.err_return = oks == 0 && refusals > 0;
         r.outcome = outcomes.into_iter().collect::<Vec<_>>().join("|");
         r
@@ -139,6 +177,7 @@ fn build(name: &str, _arg: &str, tier: Tier) -> Box<dyn Space> {
     match name {
         "built" => Box::new(Rebuilds::new("built", tier)),
         "foreign" => Box::new(Rebuilds::new("foreign", tier)),
+        "damaged" => Box::new(Rebuilds::new("damaged", tier)),
         _ => panic!("space {name}"),
     }
 }
@@ -162,6 +201,11 @@ fn survey(space: &str, tier: Tier, dump: bool) {
             }
         };
         *outcomes.entry(r.outcome.clone()).or_default() += 1;
+        if let Ok(pat) = std::env::var("C07_OUTCOME") {
+            if r.outcome.contains(&pat) {
+                println!("{i}\t{}\t{}", r.outcome, sp.describe(i));
+            }
+        }
         for v in &r.viols {
             let e = hist.entry(v.symptom.clone()).or_insert((0, i, format!("{} :: {}", sp.describe(i), v.detail)));
             e.0 += 1;
